@@ -1,0 +1,91 @@
+//! Observation hooks for external runtime monitors.
+//!
+//! Only compiled with the cargo feature `verif`; with the feature off none of
+//! this exists and no other code path changes.
+use std::cell::Cell;
+
+use crate::parse::verif_lex::{tokenize, Lex, Token};
+
+/// Sites at which logical steps are counted.
+pub const SITES: [&str; 8] = [
+    "lex_char",
+    "peek_while_fn",
+    "unify_link",
+    "unify_sub_expr",
+    "unify_sub_ty",
+    "context_class",
+    "class_has_parent",
+    "reserved",
+];
+
+thread_local! {
+    static STEPS: [Cell<u64>; 8] = Default::default();
+    static BUDGET: Cell<u64> = Cell::new(0);
+    static STAGE: Cell<u8> = Cell::new(0);
+}
+
+/// Count one logical step at site (index into [SITES]).
+///
+/// If a budget was armed with [arm_budget] and the total exceeds it, panic.
+pub fn bump(site: usize) {
+    let (total, here) = STEPS.with(|s| {
+        s[site].set(s[site].get() + 1);
+        (s.iter().map(Cell::get).sum::<u64>(), s[site].get())
+    });
+    let budget = BUDGET.with(Cell::get);
+    if budget != 0 && total > budget {
+        BUDGET.with(|b| b.set(0));
+        panic!("verif: step budget {budget} exceeded at {} ({here} steps there)", SITES[site]);
+    }
+}
+
+pub fn reset() {
+    STEPS.with(|s| s.iter().for_each(|c| c.set(0)));
+    STAGE.with(|s| s.set(0));
+}
+
+pub fn snapshot() -> Vec<u64> {
+    STEPS.with(|s| s.iter().map(Cell::get).collect())
+}
+
+/// Arm step budget for this thread; 0 disarms.
+pub fn arm_budget(budget: u64) {
+    BUDGET.with(|b| b.set(budget));
+}
+
+/// Stage last entered by `mamba_to_python` on this thread:
+/// 0 none, 1 parse, 2 context, 3 check, 4 generate, 5 done.
+pub fn set_stage(stage: u8) {
+    STAGE.with(|s| s.set(stage));
+}
+
+pub fn stage() -> u8 {
+    STAGE.with(Cell::get)
+}
+
+/// One token as seen by the lexer: (nesting depth in f-string, kind, canonical spelling,
+/// start line, start column, end line, end column).
+pub type FlatToken = (usize, String, String, usize, usize, usize, usize);
+
+/// Run the (otherwise private) lexer.
+pub fn lex(src: &str) -> Result<Vec<FlatToken>, (usize, usize, String)> {
+    fn flat(lex: &Lex, out: &mut Vec<FlatToken>, depth: usize) {
+        let kind = format!("{:?}", lex.token);
+        let kind = kind.split(|c| c == '(' || c == ' ').next().unwrap_or("").to_string();
+        let spelling = format!("{}", lex.token);
+        let (start, end) = (lex.pos.start, lex.pos.end);
+        out.push((depth, kind, spelling, start.line, start.pos, end.line, end.pos));
+        if let Token::Str(_, nested) = &lex.token {
+            nested.iter().flatten().for_each(|n| flat(n, out, depth + 1));
+        }
+    }
+
+    match tokenize(src) {
+        Ok(tokens) => {
+            let mut out = vec![];
+            tokens.iter().for_each(|t| flat(t, &mut out, 0));
+            Ok(out)
+        }
+        Err(err) => Err((err.pos.line, err.pos.pos, err.msg)),
+    }
+}
